@@ -268,6 +268,38 @@ M('F24R', 'src/xdoctest/static_analysis.py', """    # Only iterate through non-b
 M('F25R', 'src/xdoctest/static_analysis.py', """    lines = list(lines)
     iterable = (line for line in lines if line.strip())""", """    lines = list(lines)
     iterable = (line for line in lines if line)""", ['C04', 'C01', 'C13'], 'F25 repair reverted: a whitespace-only continuation line breaks statement splitting')
+M('F26R', 'src/xdoctest/parser.py', """                a = 0
+                b = 1
+                while a < len(lines):
+                    # move the tail pointer down until we become balanced
+                    # (scan forwards, like the tokenizer does: the last lines
+                    # of a multi-line string may look balanced on their own)
+                    while not static.is_balanced_statement(lines[a:b], only_tokens=True) and b <= len(lines):
+                        b += 1
+                    if b > len(lines):
+                        raise exceptions.IncompleteParseError(
+                            'ill-formed doctest: cannot find balanced ps1 lines.')
+                    # we found a balanced interval
+                    intervals.append((a, b))
+                    a = b
+                    b = b + 1
+
+                return intervals
+""", """                a = len(lines) - 1
+                b = len(lines)
+                while b > 0:
+                    while not static.is_balanced_statement(lines[a:b], only_tokens=True) and a >= 0:
+                        a -= 1
+                    if a < 0:
+                        raise exceptions.IncompleteParseError(
+                            'ill-formed doctest: cannot find balanced ps1 lines.')
+                    intervals.append((a, b))
+                    b = a
+                    a = a - 1
+
+                intervals = intervals[::-1]
+                return intervals
+""", ['C13', 'C01'], 'F26 repair reverted: balanced groups searched from the bottom up')
 M('F17R', 'src/xdoctest/doctest_example.py', """                part_directive = None
                 try:
                     try:
